@@ -59,7 +59,7 @@ CLAIMED = {
             "elaboration elab and py_of; values written back to back are read one by one. Tie: the model's write/read are evaluated on every generated "
             "(schema, datum, suffix) and compared with fastavro's bytes, value and stream position; the statement itself (independent conformance + "
             "normalisation predicate) is evaluated on the implementation for every case.",
-            "float leaves: SpecFloat.binary_round validated bit-exactly against struct.pack; elab_typed (elab output is well typed) is validated per case, proved in ElabProofs when present.", "§3 C01"),
+            "float leaves: C01_float_rounded_to_single / C01_float_widening_exact prove the 'rounded to IEEE single precision' clause against Flocq's real-number specification (stdlib Reals axioms + classic, named in the evidence); the patterns are validated bit-exactly against struct.pack; elab_typed (elab output is well typed) is validated per case, proved in ElabProofs when present.", "§3 C01"),
     "C02": ("Rocq proof: specification equations of the encoder, varint/zig-zag/little-endian leaf specs, injectivity and decodability; byte-for-byte correspondence incl. leaf encoders on exhaustive boundary families",
             "Theorems (coq/props/C02.v): zig-zag closed form, base-128 digit characterisation (continuation bits, minimal length), little-endian fixed width, "
             "the 15 structural equations of the spec (one counted block + terminator, record = concatenation, union = index then value, byte-length prefixes), "
